@@ -96,7 +96,9 @@ def gen_cases(tier, seed):
     cases.append({"role": "acceptor", "phase": "tls-server-handshake-stalled", "cut": "-", "style": "dribble"})
     # skewed variants of the PDU-boundary stalls: only the timeouts that govern the phase are short
     for c in list(cases):
-        if c["cut"] == "-" and c["style"] in ("silent", "stream") and c["phase"] != "tls-server-handshake-stalled":
+        # (not for the unrecognised-PDU stream: how long that one takes is governed by the known desync defect - the provider reads
+        #  the following bytes as one huge PDU body at loopback speed - not by any timeout)
+        if c["cut"] == "-" and c["style"] in ("silent", "stream") and c["phase"] not in ("tls-server-handshake-stalled", "stream-after-unrecognised-pdu"):
             cases.append(dict(c, skew=True))
     return cases
 
